@@ -91,22 +91,21 @@ inductive ParseRes
   | ok (n : Nat) (seed : Bytes)
 deriving DecidableEq, Repr
 
-/-- `parseServerHandshake(resp)`, `resp` = everything received so far.
+/-- first part of `parseServerHandshake`: on the first call that sees enough bytes, pull out the
+    public key, reset the HMAC, write Y and derive the server mark. Returns the (cached) Y;
+    `none` = panic -/
+def DhHs.cache (P : Prims) (hs : DhHs) (resp : Bytes) : Option (DhHs × Bytes) :=
+  match hs.serverPub with
+  | some y => some (hs, y)
+  | none =>
+    match slice? resp 0 dhSize with
+    | none => none
+    | some y => some ({ hs with serverPub := some y, macBuf := y, serverMark := mac128 P hs.kB y }, y)
+
+/-- the rest of `parseServerHandshake`: mark search, length test, MAC, shared secret.
 `fixed = false` is the code before the repair of the length test (F3): `len(resp) < pos+2*macLength`
 with `pos` still relative to `resp[uniformdh.Size:]`. -/
-def DhHs.parse (P : Prims) (fixed : Bool) (hs : DhHs) (resp : Bytes) : DhHs × ParseRes :=
-  if resp.length < minHandshakeLength then (hs, .notYet) else
-  -- The server response is Y | P_S | M_S | MAC(Y | P_S | M_S | E).
-  let cached : Option (DhHs × Bytes) :=
-    match hs.serverPub with
-    | some y => some (hs, y)
-    | none =>
-      match slice? resp 0 dhSize with
-      | none => none
-      | some y => some ({ hs with serverPub := some y, macBuf := y, serverMark := mac128 P hs.kB y }, y)
-  match cached with
-  | none => (hs, .panic)
-  | some (hs, y) =>
+def DhHs.parseTail (P : Prims) (fixed : Bool) (hs : DhHs) (y resp : Bytes) : DhHs × ParseRes :=
   if y.length ≠ dhSize then (hs, .dhErr) else
   -- Find the mark+MAC, if it exits.
   let endPos := min resp.length (maxHandshakeLength - macLength)
@@ -128,6 +127,14 @@ def DhHs.parse (P : Prims) (fixed : Bool) (hs : DhHs) (resp : Bytes) : DhHs × P
       | none => (hs, .dhErr)
       | some ss => (hs, .ok (pos + 2 * macLength) (P.sha256 ss))
     | _, _ => (hs, .panic)
+
+/-- `parseServerHandshake(resp)`, `resp` = everything received so far -/
+def DhHs.parse (P : Prims) (fixed : Bool) (hs : DhHs) (resp : Bytes) : DhHs × ParseRes :=
+  if resp.length < minHandshakeLength then (hs, .notYet) else
+  -- The server response is Y | P_S | M_S | MAC(Y | P_S | M_S | E).
+  match hs.cache P resp with
+  | none => (hs, .panic)
+  | some (hs, y) => hs.parseTail P fixed y resp
 
 inductive HsOutcome
   /-- handshake done: seed, what stays in `receiveBuffer`, segments not read yet -/
